@@ -42,7 +42,7 @@ InputsTiny  == Plain(UpTo(Pts(1, 1, 0), 2), {CS1}) \cup Periodic(UpTo(Pts(1, 0, 
 QueriesTiny == QueriesOf(-1, 1)
 
 InputsQuick ==
-       Plain(UpTo(Pts(3, 2, 1), 2), {CS1, CS32, CS2, CS5})
+       Plain(UpTo(Pts(3, 2, 1), 2), {CS1, CS32, CS5})
   \cup Plain(SortedSeqs(Pts(1, 1, 1), 3), {CS1, CS32})
   \cup WithSel(SortedSeqs({<<0, 0, 0>>, <<1, 2, 0>>, <<3, 0, 1>>, <<1, 2, 1>>}, 3) \cup SortedSeqs({<<0, 1, 0>>, <<2, 1, 3>>}, 2), {CS1, CS2})
   \cup Periodic(UpTo({<<0, 0, 0>>, <<3, 1, 0>>, <<1, 3, 2>>, <<4, 5, -1>>, <<2, 2, 2>>}, 2), {CS1, CS2}, {Ortho444, Tric1})
@@ -51,10 +51,11 @@ InputsQuick ==
 QueriesQuick == Thin(QueriesOf(-2, 5)) \o FarQueries
 
 InputsThorough ==
-       Plain(UpTo(Pts(3, 3, 2), 2), {CS1, CS32, CS2, CS5, CS12})
-  \cup Plain(SortedSeqs(Pts(2, 1, 1), 3), {CS1, CS32, CS2})
-  \cup WithSel(SortedSeqs(Pts(1, 1, 1), 3) \cup SortedSeqs(Pts(1, 1, 1), 2), {CS1, CS2})
-  \cup Periodic(UpTo({<<0, 0, 0>>, <<3, 1, 0>>, <<1, 3, 2>>, <<4, 5, -1>>, <<2, 2, 2>>, <<-1, 0, 3>>, <<7, 7, 1>>}, 3), {CS1, CS2, CS32}, {Ortho444, Tric1, Tric2, RotOrtho, Ortho248})
+       Plain(UpTo(Pts(3, 2, 1), 2), {CS1, CS32, CS2, CS5, CS12})
+  \cup Plain(SortedSeqs(Pts(2, 1, 1), 3), {CS1, CS32})
+  \cup WithSel(SortedSeqs(Pts(1, 1, 1), 3) \cup SortedSeqs(Pts(1, 1, 1), 2), {CS1})
+  \cup Periodic(UpTo({<<0, 0, 0>>, <<3, 1, 0>>, <<1, 3, 2>>, <<4, 5, -1>>, <<2, 2, 2>>, <<-1, 0, 3>>, <<7, 7, 1>>}, 2), {CS1, CS2, CS32}, TabBoxes)
+  \cup Periodic(SortedSeqs({<<0, 0, 0>>, <<3, 1, 0>>, <<1, 3, 2>>, <<4, 5, -1>>, <<-1, 0, 3>>}, 3), {CS2}, {Ortho444, Tric1, Tric3})
   \cup PeriodicSel(SortedSeqs({<<0, 0, 0>>, <<3, 1, 0>>, <<1, 3, 2>>, <<2, 2, 2>>}, 3), {CS2, CS1}, {Ortho444, Tric1, Tric2})
 QueriesThorough == QueriesOf(-2, 5) \o FarQueries
 
@@ -118,21 +119,23 @@ Evaluate(inp) ==
                /\ (m \in Adj_[r][k] => (k \in sel /\ m \in sel)),
            ImplCellsInGrid(g) >> >>
 
-VARIABLES inp, res      \* res = <<>> before, <<result, checks>> after the evaluation
-vars == <<inp, res>>
+\* (state variables are named so that they cannot coincide with a bound variable or parameter
+\* of a constant definition - TLC would stop caching that definition, see Trace.tla)
+VARIABLES vin, vout     \* vout = <<>> before, <<result, checks>> after the evaluation
+vars == <<vin, vout>>
 
-Init == inp \in Inputs /\ res = <<>>
-Next == res = <<>> /\ res' = Evaluate(inp) /\ UNCHANGED inp
+Init == vin \in Inputs /\ vout = <<>>
+Next == vout = <<>> /\ vout' = Evaluate(vin) /\ UNCHANGED vin
 Spec == Init /\ [][Next]_vars
 
-Done == res # <<>>
+Done == vout # <<>>
 
 (* ------------------------------------------------------------------ S1: design claims *)
-InvDomain    == Dom_Input(inp) /\ N(inp) <= 3 /\ (IsPeriodic(inp) => BoxOf(inp) \in TabBoxes)
-InvExact     == Done => res[2][1]
-InvSuperset  == Done => res[2][2]
-InvAdjacency == Done => res[2][3]
-InvGrid      == Done => res[2][4]
+InvDomain    == Dom_Input(vin) /\ N(vin) <= 3 /\ (IsPeriodic(vin) => BoxOf(vin) \in TabBoxes)
+InvExact     == Done => vout[2][1]
+InvSuperset  == Done => vout[2][2]
+InvAdjacency == Done => vout[2][3]
+InvGrid      == Done => vout[2][4]
 
 ASSUME \A r \in DOMAIN Radii : Dom_Radius(Radii[r])
 \* the driver reads the bounded sets from TLC (it never rebuilds them)
